@@ -149,6 +149,10 @@ func (r *runner) run(backend string, nameComps []string, leadingSep bool, sep, k
 		dest = filepath.Join(root, "dest") + "/"
 	case "rel":
 		dest = fmt.Sprintf("reldest%d", r.id)
+	case "dotdot":
+		dest = ".."
+	case "dotdot2":
+		dest = "../.."
 	}
 	destAbs, destComps := split(dest)
 	_, cwdComps := split(r.cwd)
@@ -173,9 +177,9 @@ func (r *runner) run(backend string, nameComps []string, leadingSep bool, sep, k
 	}
 	fs := filesystem.NewVirtualFileSystem(fsgate.New(base, "op", gate), fstype, filesystem.IdentityPathConverterFunc)
 	before := sandbox.Take(base, root)
-	var cwdBefore sandbox.Snapshot
+	var osBefore sandbox.Snapshot
 	if backend == "os" {
-		cwdBefore = sandbox.Take(base, r.cwd)
+		osBefore = sandbox.Take(base, r.osRoot)
 	}
 	done := make(chan error, 1)
 	go func() {
@@ -203,15 +207,29 @@ func (r *runner) run(backend string, nameComps []string, leadingSep bool, sep, k
 		outside = append(outside, p)
 	}
 	if backend == "os" {
-		rel := ""
-		if destShape == "rel" {
-			rel = dest
+		// everything else in the sandbox, relative to its top: the destination region is where a relative destination
+		// resolves from the working directory cwd/lvl1/lvl2
+		own := fmt.Sprintf("s%d", r.id)
+		region := ""
+		switch destShape {
+		case "rel":
+			region = "cwd/lvl1/lvl2/" + dest
+		case "dotdot":
+			region = "cwd/lvl1"
+		case "dotdot2":
+			region = "cwd"
 		}
-		for _, p := range sandbox.Diff(cwdBefore, sandbox.Take(base, r.cwd), "") {
-			if p == "." || (rel != "" && (p == rel || strings.HasPrefix(p, rel+"/"))) {
+		for _, p := range sandbox.Diff(osBefore, sandbox.Take(base, r.osRoot), "") {
+			if p == "." || p == own || strings.HasPrefix(p, own+"/") {
 				continue
 			}
-			outside = append(outside, "cwd/"+p)
+			if region != "" && (p == region || strings.HasPrefix(p, region+"/")) {
+				continue
+			}
+			if region != "" && strings.HasPrefix(region, p+"/") && isDir(filepath.Join(r.osRoot, p)) {
+				continue // an ancestor directory of the destination (its modification time changes)
+			}
+			outside = append(outside, "sandbox/"+p)
 		}
 	}
 	if outside == nil {
@@ -223,8 +241,26 @@ func (r *runner) run(backend string, nameComps []string, leadingSep bool, sep, k
 		if destShape == "rel" {
 			_ = os.RemoveAll(filepath.Join(r.cwd, dest))
 		}
+		if destShape == "dotdot" || destShape == "dotdot2" {
+			// restore the shared parents of the working directory
+			for _, d := range []string{filepath.Join(r.osRoot, "cwd", "lvl1"), filepath.Join(r.osRoot, "cwd")} {
+				ents, _ := os.ReadDir(d)
+				for _, en := range ents {
+					if en.Name() != "lvl1" && en.Name() != "lvl2" && en.Name() != "victim.txt" {
+						_ = os.RemoveAll(filepath.Join(d, en.Name()))
+					}
+				}
+			}
+			_ = os.WriteFile(filepath.Join(r.osRoot, "cwd", "victim.txt"), []byte("precious"), 0o644)
+			_ = os.WriteFile(filepath.Join(r.osRoot, "victim.txt"), []byte("precious"), 0o644)
+		}
 	}
 	return nil
+}
+
+func isDir(p string) bool {
+	st, err := os.Lstat(p)
+	return err == nil && st.IsDir()
 }
 
 func newRunner(a *hk.Args) (*runner, func(), error) {
@@ -236,8 +272,10 @@ func newRunner(a *hk.Args) (*runner, func(), error) {
 	if err != nil {
 		return nil, nil, err
 	}
-	cwd := filepath.Join(osRoot, "cwd")
+	cwd := filepath.Join(osRoot, "cwd", "lvl1", "lvl2")
 	_ = os.MkdirAll(cwd, 0o755)
+	_ = os.WriteFile(filepath.Join(osRoot, "cwd", "victim.txt"), []byte("precious"), 0o644)
+	_ = os.WriteFile(filepath.Join(osRoot, "victim.txt"), []byte("precious"), 0o644)
 	old, _ := os.Getwd()
 	if err := os.Chdir(cwd); err != nil {
 		return nil, nil, err
@@ -265,7 +303,7 @@ func replay(a *hk.Args) error {
 		if err := r.run("os", sc.Comps, sc.LeadingSep, sep, sc.Kind, sc.Stem, sc.DestShape, ""); err != nil {
 			return err
 		}
-		if sc.DestShape != "rel" {
+		if sc.DestShape == "abs" || sc.DestShape == "trailing" {
 			if err := r.run("mem", sc.Comps, sc.LeadingSep, sep, sc.Kind, sc.Stem, sc.DestShape, ""); err != nil {
 				return err
 			}
@@ -314,12 +352,12 @@ func fuzz(a *hk.Args) error {
 		if name == "" || name == "/" {
 			continue
 		}
-		shape := []string{"abs", "trailing", "rel"}[rng.Intn(3)]
+		shape := []string{"abs", "trailing", "rel", "dotdot", "dotdot2"}[rng.Intn(5)]
 		kind := []string{"file", "file", "dir"}[rng.Intn(3)]
 		if err := r.run("os", nil, false, "/", kind, "S", shape, name); err != nil {
 			return err
 		}
-		if shape != "rel" && rng.Intn(2) == 0 {
+		if (shape == "abs" || shape == "trailing") && rng.Intn(2) == 0 {
 			if err := r.run("mem", nil, false, "/", kind, "S", shape, name); err != nil {
 				return err
 			}
